@@ -781,7 +781,7 @@ impl Suite for Api {
 
     fn generate(&self, seed: u64, tier: &str) -> Vec<Case> {
         let mut r0 = Rng::new(seed ^ 0xA91_C01);
-        let n_cases = if tier == "thorough" { 1_600 } else { 240 };
+        let n_cases = if tier == "thorough" { 1_400 } else { 200 };
         let mut cases = vec![];
         for i in 0..n_cases {
             let mut r = r0.fork(i as u64);
@@ -830,17 +830,15 @@ impl Suite for Api {
             if segs.is_empty() {
                 continue;
             }
-            // tables in a known-finding class stay in the distribution at a small share
+            // (until /repo 4a8ac11 tables in the classes of F4 / F10 / F19 / F27 were kept at a small
+            // share of the budget; since the fixes they are ordinary cases)
             let colnames_v: Vec<String> = names.iter().map(|(n, _)| n.clone()).collect();
             let known = table_tag(&cfg, &segs, &colnames_v);
-            if known != "-" && !r.chance(1, 5) {
-                continue;
-            }
             labels.sort();
             labels.dedup();
             let class = format!(
                 "{}{}/{}",
-                if known != "-" { "known-shape:" } else { "" },
+                if known != "-" { "formerly-known-shape:" } else { "" },
                 if cfg.disk { "disk" } else { "mem" },
                 labels.iter().map(|l| l.split(':').next().unwrap_or("").to_string()).collect::<std::collections::BTreeSet<_>>().into_iter().collect::<Vec<_>>().join("+")
             );
@@ -987,8 +985,7 @@ impl Suite for Api {
                 };
                 let diff = first_diff(e, &got);
                 let sig = diff.as_ref().map(|_| format!("api-{}:{}:{}", diff_signature(e, &got), fmt, tag));
-                // release profile: overflow wraps where the (dev-profile) model panics
-                let model_ok = cfg!(debug_assertions) || !(tag.contains("min-is-i64-MIN") || tag.contains("increasing-step-exceeds"));
+                let model_ok = true;
                 outs.push(Outcome {
                     model: if fmt == "rows" && model_ok { Some("api_table_col".into()) } else { None },
                     model_input: if fmt == "rows" && model_ok { Some(model_input.clone()) } else { None },
@@ -1129,18 +1126,14 @@ impl Suite for Csv {
                 }
                 cols = colsv.iter().map(|(n, c)| Sx::l(vec![Sx::a(n), cells_sx(c)])).collect();
             }
-            // keep tables of the known-finding classes at a small share
             let tag = {
                 let colsv: Vec<(String, Vec<Cell>)> = cols.iter().map(|c| (c.items()[0].atom().to_string(), c.items()[1].items().iter().map(Cell::parse).collect())).collect();
                 csv_table_tag(&cfg, partition_size, &colsv)
             };
-            if tag != "-" && !r.chance(1, 4) {
-                continue;
-            }
             labels.sort();
             labels.dedup();
             cases.push(Case {
-                class: format!("{}csv-{}/{}", if tag != "-" { "known-shape:" } else { "" }, if cfg.disk { "disk" } else { "mem" }, labels.join("+")),
+                class: format!("{}csv-{}/{}", if tag != "-" { "formerly-known-shape:" } else { "" }, if cfg.disk { "disk" } else { "mem" }, labels.join("+")),
                 input: Sx::l(vec![cfg_sx(&cfg), Sx::int(partition_size), Sx::L(cols)]),
             });
         }
